@@ -3,32 +3,33 @@
 (* output must be a behaviour of Mcb; in addition every rank returns and only rank 0 emits.                *)
 EXTENDS Mcb, Json, IOUtils
 Tr == ndJsonDeserialize(IOEnv.TRACE)
-VARIABLES l, cl, skip
-tvars == <<l, cl, skip, pc, G, out, basis>>
+VARIABLES l, cl, skip, deg, wsum          \* deg / wsum: see Trace_Mcb
+tvars == <<l, cl, skip, deg, wsum, pc, G, out, basis>>
 Report(v) == IF v = {} THEN TRUE ELSE PrintT(<<"REJECT", cl, l, v>>)
 GraphOf(ev) == [n |-> ev.n, edges |-> ev.edges]
-TInit == MInit /\ l = 1 /\ cl = 0 /\ skip = FALSE
+TInit == MInit /\ l = 1 /\ cl = 0 /\ skip = FALSE /\ deg = FALSE /\ wsum = 0
 TCall(ev) ==
-  /\ ev.e = "Call" /\ cl' = l
+  /\ ev.e = "Call" /\ cl' = l /\ deg' = FALSE /\ wsum' = 0
   /\ IF InDomain(GraphOf(ev))
        THEN pc' = "run" /\ G' = GraphOf(ev) /\ out' = <<>> /\ basis' = <<>> /\ skip' = FALSE
        ELSE PrintT(<<"REJECT", l, l, {"bad-input"}>>) /\ skip' = TRUE /\ UNCHANGED mvars
 TEmit(ev) ==
   /\ ev.e = "Emit" /\ UNCHANGED cl
-  /\ IF skip THEN UNCHANGED <<skip, pc, G, out, basis>>
+  /\ wsum' = (IF skip /\ ~deg THEN wsum ELSE AddW(wsum, ev.cyc))
+  /\ IF skip THEN UNCHANGED <<skip, deg, pc, G, out, basis>>
      ELSE LET v == EmitViol(ev.cyc) IN
-          IF v = {} THEN Emit(ev.cyc) /\ UNCHANGED skip
-          ELSE Report(v) /\ skip' = TRUE /\ UNCHANGED mvars
+          IF v = {} THEN Emit(ev.cyc) /\ UNCHANGED <<skip, deg>>
+          ELSE Report(v) /\ skip' = TRUE /\ deg' = TRUE /\ UNCHANGED mvars
 RanksViol(ev) ==
        (IF \E k \in 1..Len(ev.ranks) : ~ev.ranks[k].returned THEN {"rank-did-not-return"} ELSE {})
   \cup (IF \E k \in 1..Len(ev.ranks) : ev.ranks[k].rank # 0 /\ ev.ranks[k].ncyc # 0 THEN {"non-root-rank-emitted"} ELSE {})
 TReturn(ev) ==
-  /\ ev.e = "Return" /\ UNCHANGED cl
-  /\ IF skip THEN Report(RanksViol(ev)) ELSE
+  /\ ev.e = "Return" /\ UNCHANGED <<cl, wsum>> /\ deg' = FALSE
+  /\ IF skip THEN Report(RanksViol(ev) \cup (IF deg /\ "rank-did-not-return" \notin RanksViol(ev) THEN DegradedReturnViol(ev, wsum) ELSE {})) ELSE
        LET rv == RanksViol(ev) IN
        Report(IF "rank-did-not-return" \in rv THEN rv ELSE rv \cup ReturnViol(ev))
   /\ skip' = FALSE /\ pc' = "idle" /\ UNCHANGED <<G, out, basis>>
-TOther(ev) == /\ ev.e \in {"Crash", "LayoutError"} /\ UNCHANGED cl
+TOther(ev) == /\ ev.e \in {"Crash", "LayoutError"} /\ UNCHANGED <<cl, wsum>> /\ deg' = FALSE
               /\ (IF ev.e = "Crash" THEN Report({"crash"}) ELSE PrintT(<<"LAYOUTERROR", l>>))
               /\ skip' = FALSE /\ pc' = "idle" /\ UNCHANGED <<G, out, basis>>
 TNext == /\ l <= Len(Tr) /\ l' = l + 1
